@@ -1028,8 +1028,15 @@ fn damage(w: &W, fmt: Fmt) -> Verdict {
             }
         }
         _ => {
-            fields.push(b"extra".to_vec());
-            what = format!("line {}: one column appended", j);
+            // a non-empty extra column, or just a trailing tab (an empty extra column)
+            if w.chance(1, 2) {
+                fields.push(b"extra".to_vec());
+                what = format!("line {}: one column appended", j);
+            } else {
+                fields.push(vec![]);
+                what = format!("line {}: a trailing tab (an empty column) appended", j);
+                w.probe("damage_trailing_tab");
+            }
             w.probe("damage_column_added");
         }
     }
@@ -1366,7 +1373,7 @@ pub fn property() -> Property {
         ],
         expected_probes: &[
             "multi_valued_attribute", "key_order_differs_from_insertion", "quoted_csv_field", "csv_field_or_line_split_across_reads",
-            "damage_bad_number", "damage_bad_phase", "damage_phase_in_u8_range", "damage_column_missing", "damage_column_added", "damage_bed_fewer_than_three_columns", "eintr_surfaced_by_reader", "many_records_regime", "all_partitions_sweep", "first_column_starts_with_hash", "field_with_tab_or_line_feed", "many_values_record", "damaged_line_follows_comment", "damaged_last_line_without_newline",
+            "damage_bad_number", "damage_bad_phase", "damage_phase_in_u8_range", "damage_column_missing", "damage_column_added", "damage_trailing_tab", "damage_bed_fewer_than_three_columns", "eintr_surfaced_by_reader", "many_records_regime", "all_partitions_sweep", "first_column_starts_with_hash", "field_with_tab_or_line_feed", "many_values_record", "damaged_line_follows_comment", "damaged_last_line_without_newline",
         ],
         quick_runs: 300_000,
         thorough_runs: 20_000_000,
